@@ -1,7 +1,7 @@
 //! C08, round 5 — child module of `ops_text` (declared at the end of ops_text.rs, uses its private helpers).
 //!
-//!   f.rtsci K P S F      K = lexp | uexp (every base) | bin (base 2) | oct (base 8) | lhex | uhex (base 16, and base 2 in the
-//!                        hexadecimal form 0xh.hhp±e); P = none | d:precision; S = + | - (the `+` flag); no width.
+//!   f.rtsci K P S F [W]  K = lexp | uexp (every base) | bin (base 2) | oct (base 8) | lhex | uhex (base 16, and base 2 in the
+//!                        hexadecimal form 0xh.hhp±e); P = none | d:precision; S = - | + | 0 | +0 (`+` and zero flags); W = optional width d:n.
 //!                        format!("{:K}") / {:.P$K} / {:+K} ... then `str::parse::<FBig<R, B>>()` of the text:
 //!                        -> `<text s:bytes> <result of the parse>`   (model side: lean/Dashu/Driver/TextSci.lean)
 use super::*;
@@ -14,41 +14,43 @@ fn back<R: Round, const B: Word>(text: String) -> String {
     format!("{} {}", fs(text), b)
 }
 
-fn sci_args<R: Round, const B: Word>(args: &[&str]) -> Result<(String, Option<usize>, String, FBig<R, B>), String> {
+/// (kind, precision, flags, value, width)
+fn sci_args<R: Round, const B: Word>(args: &[&str]) -> Result<(String, Option<usize>, String, FBig<R, B>, Option<usize>), String> {
     let fl = arg(args, 2)?;
-    if fl != "+" && fl != "-" {
+    if fl != "+" && fl != "-" && fl != "0" && fl != "+0" {
         return Err(format!("bad-arg sign flag {}", fl));
     }
-    Ok((arg(args, 0)?.to_string(), opt_usize(arg(args, 1)?)?, fl.to_string(), build::<R, B>(&p_farg(arg(args, 3)?)?)))
+    let w = if args.len() > 4 { Some(p_usize(arg(args, 4)?)?) } else { None };
+    Ok((arg(args, 0)?.to_string(), opt_usize(arg(args, 1)?)?, fl.to_string(), build::<R, B>(&p_farg(arg(args, 3)?)?), w))
 }
 
 fn sci_exp<R: Round, const B: Word>(args: &[&str]) -> Res {
-    let (k, p, fl, a) = sci_args::<R, B>(args)?;
-    merge(&["rtsci"], vec![run1t(|| back::<R, B>(ffmt(&a, &k, p, None, &fl).unwrap()))])
+    let (k, p, fl, a, w) = sci_args::<R, B>(args)?;
+    merge(&["rtsci"], vec![run1t(|| back::<R, B>(ffmt(&a, &k, p, w, &fl).unwrap()))])
 }
 fn sci_bin<R: Round, const B: Word>(args: &[&str]) -> Res
 where
     FBig<R, B>: core::fmt::Binary,
 {
-    let (_k, p, fl, a) = sci_args::<R, B>(args)?;
-    merge(&["rtsci"], vec![run1t(|| back::<R, B>(ffmt_bin(&a, p, None, &fl).unwrap()))])
+    let (_k, p, fl, a, w) = sci_args::<R, B>(args)?;
+    merge(&["rtsci"], vec![run1t(|| back::<R, B>(ffmt_bin(&a, p, w, &fl).unwrap()))])
 }
 fn sci_oct<R: Round, const B: Word>(args: &[&str]) -> Res
 where
     FBig<R, B>: core::fmt::Octal,
 {
-    let (_k, p, fl, a) = sci_args::<R, B>(args)?;
-    merge(&["rtsci"], vec![run1t(|| back::<R, B>(ffmt_oct(&a, p, None, &fl).unwrap()))])
+    let (_k, p, fl, a, w) = sci_args::<R, B>(args)?;
+    merge(&["rtsci"], vec![run1t(|| back::<R, B>(ffmt_oct(&a, p, w, &fl).unwrap()))])
 }
 fn sci_hex<R: Round, const B: Word>(args: &[&str]) -> Res
 where
     FBig<R, B>: core::fmt::LowerHex + core::fmt::UpperHex,
 {
-    let (k, p, fl, a) = sci_args::<R, B>(args)?;
+    let (k, p, fl, a, w) = sci_args::<R, B>(args)?;
     if k == "lhex" {
-        merge(&["rtsci"], vec![run1t(|| back::<R, B>(ffmt_lhex(&a, p, None, &fl).unwrap()))])
+        merge(&["rtsci"], vec![run1t(|| back::<R, B>(ffmt_lhex(&a, p, w, &fl).unwrap()))])
     } else {
-        merge(&["rtsci"], vec![run1t(|| back::<R, B>(ffmt_uhex(&a, p, None, &fl).unwrap()))])
+        merge(&["rtsci"], vec![run1t(|| back::<R, B>(ffmt_uhex(&a, p, w, &fl).unwrap()))])
     }
 }
 
